@@ -31,6 +31,24 @@ def run_job(job, wd):
     if job.get("no_tables"):
         odim, cdim = "outcomes", "cues"
 
+    def permuted(da):
+        # the same labelled table with its rows in reverse order: the same vectors under other row numbers (ids)
+        return None if da is None else da[::-1].copy()
+
+    earlier_done = False
+    if job.get("earlier_permuted") and job["impl"] != "dict_wh":
+        # history: the same event file was learned from in this process just before, with the same options and the same
+        # vectors listed in another row order (whatever a call remembers about a file must not survive the call)
+        path0 = os.path.join(wd, "ev0.tab.gz")
+        write_event_file(path0, [(list(c), list(o)) for c, o in parts[0]])
+        try:
+            wh.wh(path0, eta, cue_vectors=permuted(cv), outcome_vectors=permuted(ov), method=job["impl"],
+                  n_jobs=job.get("n_jobs", 2), n_outcomes_per_job=job.get("n_outcomes_per_job", 2),
+                  remove_duplicates=pol, temporary_directory=wd, events_per_temporary_file=job.get("per", 10000000))
+        except Exception:       # noqa  (the main call decides)
+            pass
+        earlier_done = True
+
     def go():
         w = None
         snapshots_ok = True
@@ -41,7 +59,8 @@ def run_job(job, wd):
             if k >= 1 and job.get("outcome_vectors2"):
                 ovk = vectors(job["outcome_vectors2"], "outcome_vector_dimensions", "outcomes")
             path = os.path.join(wd, "ev%d.tab.gz" % k)
-            write_event_file(path, [(list(c), list(o)) for c, o in events])
+            if not (k == 0 and earlier_done):          # the file of the earlier call is used as it is (same mtime)
+                write_event_file(path, [(list(c), list(o)) for c, o in events])
             before = None if (w is None or job["impl"] == "dict_wh") else (w.values.copy().tobytes(), dict(w.attrs),
                                               {d: list(map(str, w.coords[d].values.tolist())) for d in w.dims})
             if job["impl"] == "dict_wh":
